@@ -148,19 +148,19 @@ ROUTES = ("datetime", "create", "local", "convert", "tz.datetime", "naive.in_tim
 def cases(tier):
     out = []
     if tier == "quick":
-        win, nts = (1999, 2001), (1,)
+        win, nts = (1998, 2000), (1,)
     else:
-        win, nts = (1896, 2104), (1, 2)
+        win, nts = (1801, 2000), (1, 2)
     for nt in nts:
         for route in ROUTES:
-            w = win if nt == 1 else (1999, 2001)
+            w = win if nt == 1 else (1998, 2000)
             out.append(dict(
                 name=f"{route} zone{nt}", fn=construct,
                 params=dict(route=route, ntrans=nt, ylo=w[0], yhi=w[1], raising=False),
                 bounds=(f"every wall time in years {w[0]}..{w[1]} x fold x every zone with {nt} transition(s) "
                         "anywhere within +-400 days of the wall date, offsets any second in +-23:59:59")))
         for route in ("datetime", "create", "convert"):
-            w = win if nt == 1 else (1999, 2001)
+            w = win if nt == 1 else (1998, 2000)
             out.append(dict(
                 name=f"{route} raise zone{nt}", fn=construct,
                 params=dict(route=route, ntrans=nt, ylo=w[0], yhi=w[1], raising=True),
